@@ -43,14 +43,6 @@ func vhFeeHex(s string) *big.Int {
 	return b
 }
 
-// k*G for k = 1..4 on P-256
-var vhFeeKeys = []*keys.PublicKey{
-	{X: vhFeeHex("6b17d1f2e12c4247f8bce6e563a440f277037d812deb33a0f4a13945d898c296"), Y: vhFeeHex("4fe342e2fe1a7f9b8ee7eb4a7c0f9e162bce33576b315ececbb6406837bf51f5")},
-	{X: vhFeeHex("7cf27b188d034f7e8a52380304b51ac3c08969e277f21b35a60b48fc47669978"), Y: vhFeeHex("07775510db8ed040293d9ac69f7430dbba7dade63ce982299e04b79d227873d1")},
-	{X: vhFeeHex("5ecbe4d1a6330a44c8f7ef951d4bf165e6c6b721efada985fb41661bc6e7fd6c"), Y: vhFeeHex("8734640c4998ff7e374b06ce1a64a2ecd82ab036384fb83d9a79b127a27d5032")},
-	{X: vhFeeHex("e2534a3532d08fbba02dde659ee62bd0031fe2db785596ef509302446b030852"), Y: vhFeeHex("e0f1575a4c633cc719dfee5fda862d764efc96c3f30ee0055c42c23f184ed8c6")},
-}
-
 // vhFeeKeyFromBytes replaces public key decompression in the symbolic run (table lookup).
 func vhFeeKeyFromBytes(b []byte, _ elliptic.Curve) (*keys.PublicKey, error) {
 	for _, k := range vhFeeKeys {
@@ -65,15 +57,15 @@ func vhFeeKeyFromBytes(b []byte, _ elliptic.Curve) (*keys.PublicKey, error) {
 // vhFeeVerify replaces ECDSA verification: the dummy signatures never verify (gas is charged all the same).
 func vhFeeVerify(p *keys.PublicKey, sig []byte, _ []byte) bool { return false }
 
-var vhFeeShapes = [][2]int{{0, 0}, {1, 1}, {1, 2}, {2, 2}, {2, 3}, {3, 4}, {1, 4}}
+var vhFeeShapes = [][2]int{{0, 0}, {1, 1}, {1, 2}, {2, 2}, {2, 3}, {3, 4}, {1, 4}, {11, 21}, {17, 17}, {16, 18}, {1, 18}, {18, 21}}
 var vhFeeBases = []int64{1, 7, 9999, 10000, 300000, 1234567}
 
 //vf:tier quick
 //vf:unwind 200
 //vf:redirect github.com/nspcc-dev/neo-go/pkg/crypto/keys.NewPublicKeyFromBytes => github.com/nspcc-dev/neo-go/pkg/core.vhFeeKeyFromBytes
 //vf:redirect (*github.com/nspcc-dev/neo-go/pkg/crypto/keys.PublicKey).Verify => github.com/nspcc-dev/neo-go/pkg/core.vhFeeVerify
-//vf:stub public keys are k*G (k=1..4) decoded by table lookup, ECDSA verification returns false (curve arithmetic not encoded); natively the real functions run
-//vf:bound witness shapes: single signature, 1-of-1, 1-of-2, 2-of-2, 2-of-3, 3-of-4, 1-of-4 multisignature (scripts from keys.GetVerificationScript / smartcontract.CreateMultiSigRedeemScript, invocation scripts of 64-byte signature pushes); execution fee factor from {1,7,9999,10000,300000,1234567} picoGAS units (symbolic 64-bit division by 10000 is beyond the solver); gas limit g any value in [0, 2^40]
+//vf:stub public keys are k*G (k=1..21) decoded by table lookup, ECDSA verification returns false (curve arithmetic not encoded); natively the real functions run
+//vf:bound witness shapes: single signature, 1-of-1, 1-of-2, 2-of-2, 2-of-3, 3-of-4, 1-of-4, 11-of-21, 17-of-17, 16-of-18, 1-of-18, 18-of-21 multisignature (scripts from keys.GetVerificationScript / smartcontract.CreateMultiSigRedeemScript, invocation scripts of 64-byte signature pushes); execution fee factor from {1,7,9999,10000,300000,1234567} picoGAS units (symbolic 64-bit division by 10000 is beyond the solver); gas limit g any value in [0, 2^40]
 func VF_C07_fee_calculator_is_the_threshold() {
 	shape := vhFeeShapes[vfChoose("shape", 0, len(vhFeeShapes)-1)]
 	base := vhFeeBases[vfChoose("base", 0, len(vhFeeBases)-1)]
